@@ -64,6 +64,46 @@ class IntegInterp(BufInterp):
             return UNIT_S
         return super().ext_call(name, args, kwargs, node)
 
+    def binop(self, op, left, right, node):
+        # a literal zero times DATA is not a neutral element of the sum: 0 * nan, 0 * inf and 0 * masked are nan / nan / masked, so a
+        # publication that merely seeds the accumulator leaks into every window (a symbolic weight that happens to be zero is another matter)
+        if isinstance(op, ast.Mult) and isinstance(node, ast.BinOp):
+            for z, zn, d in ((left, node.left, right), (right, node.right, left)):
+                written_zero = isinstance(zn, ast.Constant) and isinstance(zn.value, (int, float)) and not isinstance(zn.value, bool) and zn.value == 0
+                if written_zero and isinstance(z, (int, float)) and z == 0 and isinstance(d, Sym) and "V(" in repr(d):
+                    return Sym("zero_times", d)  # (`0.0 * data` written out: a zero "of the right shape" made from data)
+        return super().binop(op, left, right, node)
+
+    def _rank_bounds(self, v):
+        """(lo, hi, exact): rank of v, or the open rank interval a midpoint 0.5 * (a + b) of two ranked terms lies in."""
+        r = self.order.lookup(v) if not isinstance(v, (int, float)) or isinstance(v, bool) else self.order.lookup(v)
+        if r is not None:
+            return r, r, True
+        if isinstance(v, Sym):
+            inner = None
+            if v.op == "mul" and len(v.args) == 2 and 0.5 in v.args:
+                inner = v.args[0] if v.args[1] == 0.5 else v.args[1]
+            elif v.op == "div" and len(v.args) == 2 and v.args[1] == 2:
+                inner = v.args[0]
+            if isinstance(inner, Sym) and inner.op == "add" and len(inner.args) == 2:
+                ra, rb = (self.order.lookup(x) for x in inner.args)
+                if ra is not None and rb is not None:
+                    return (ra, ra, True) if ra == rb else (min(ra, rb), max(ra, rb), False)
+        return None
+
+    def undecided_compare(self, op, left, right, node):
+        bl, br = self._rank_bounds(left), self._rank_bounds(right)
+        if bl is not None and br is not None and isinstance(op, (ast.Lt, ast.LtE, ast.Gt, ast.GtE)):
+            (llo, lhi, lex), (rlo, rhi, rex) = bl, br
+            # left entirely below / above right (an inexact interval is open: its ends are not attained)
+            below = lhi < rlo or (lhi == rlo and not (lex and rex))
+            above = llo > rhi or (llo == rhi and not (lex and rex))
+            if below:
+                return isinstance(op, (ast.Lt, ast.LtE))
+            if above:
+                return isinstance(op, (ast.Gt, ast.GtE))
+        return super().undecided_compare(op, left, right, node)
+
     def attr(self, base, attr, node, mod):
         if attr == "to_reduced_units" and base is None:
             self.on_raise(Sym("exc", "AttributeError", "NoneType has no to_reduced_units"), node)
